@@ -625,6 +625,8 @@ class Interp:
             if res == "def" and f.get("dk") in ("Fn", "AssocFn"):
                 name = f["n"]
                 return self.dom.call(self, name, f, e["a"], env, e)
+            if res == "selfctor" and hasattr(self.dom, "self_ctor"):
+                return self.dom.self_ctor(self, [self.ev(a, env) for a in e["a"]], env)
             if res == "local":
                 fv = env.get(f["n"])
                 return self.dom.call_value(self, fv, [self.ev(a, env) for a in e["a"]])
